@@ -110,7 +110,11 @@ func (r *Run) SpawnChildren(n, par int, extraEnv []string, timeout time.Duration
 			pp := filepath.Join(dir, fmt.Sprintf("partial-%d.json", i))
 			errPath := filepath.Join(dir, fmt.Sprintf("stderr-%d.txt", i))
 			ef, _ := os.Create(errPath)
-			cmd := exec.Command(os.Args[0], "--tier", r.Tier)
+			bin := os.Args[0]
+			if r.ChildBinary != "" {
+				bin = r.ChildBinary
+			}
+			cmd := exec.Command(bin, "--tier", r.Tier)
 			cmd.Env = append(os.Environ(), fmt.Sprintf("VERIF_CHILD_INDEX=%d", i), fmt.Sprintf("VERIF_CHILD_COUNT=%d", n), "VERIF_PARTIAL="+pp,
 				fmt.Sprintf("VERIF_SEED=%d", r.Seed), "VERIF_TIER="+r.Tier)
 			cmd.Env = append(cmd.Env, extraEnv...)
